@@ -57,6 +57,7 @@ func suite() hlib.Suite {
 					c /= 4
 				}
 				input := fmt.Sprintf("setups=%v iterations=%v", setupB, iterB)
+				r.SampleCase(input)
 				var log []string
 				var setupT *f1testing.T
 				comps := make([]f1testing.ScenarioFn, n)
